@@ -73,6 +73,14 @@ Fixpoint matcher_expr (n : node) : str :=
   | NStringer i => matcher_expr i
   end.
 
+(** isAddressable: a variable, or a field selected from an addressable struct or through a pointer *)
+Fixpoint addressable (n : node) : bool :=
+  match n with
+  | NRoot _ _ => true
+  | NField p _ => is_ptr (expr_type p) || addressable p
+  | _ => false
+  end.
+
 Fixpoint node_root (n : node) : node :=
   match n with
   | NRoot _ _ => n
@@ -156,7 +164,8 @@ Section Builder.
               match lookup_name d (n_pkg_path n) with
               | Some pn => match pn with
                            | [] => Ok (n_name n)
-                           | _ => Ok (pn ++ [46] ++ n_name n)
+                           | _ => if str_eqb pn [46] then Ok (n_name n)        (* dot-imported: no qualifier *)
+                                  else Ok (pn ++ [46] ++ n_name n)
                            end
               | None => Ok (n_name n)
               end
@@ -220,7 +229,9 @@ Section Builder.
             (* a predeclared named type (error) has no package and is spelled bare *)
             if negb (n_has_pkg n) || str_eqb (n_pkg_path n) (d_pkg_path d) then Ok (Some (NCast inner t (cast_operator t (n_name n))))
             else match lookup_name d (n_pkg_path n) with
-                 | Some pn => Ok (Some (NCast inner t (cast_operator t (pn ++ [46] ++ n_name n))))
+                 | Some pn =>
+                     if str_eqb pn [46] then Ok (Some (NCast inner t (cast_operator t (n_name n))))   (* dot-imported *)
+                     else Ok (Some (NCast inner t (cast_operator t (pn ++ [46] ++ n_name n))))
                  | None => Ok (Some (NCast inner t (cast_operator t (n_pkg_name n ++ [46] ++ n_name n))))
                  end
         | None => Ok None
@@ -236,6 +247,7 @@ Section Builder.
     (** castNode *)
     Definition cast_node (lhs_t : ty) (rhs : node) : res (option node) :=
       if assignable E (expr_type rhs) lhs_t then ret (Some rhs)
+      else if returns_error rhs then ret None      (* a two-valued call cannot be wrapped *)
       else if o_stringer o && assignable E string_ty lhs_t && complies_stringer E (expr_type rhs) then
         ret (Some (NStringer rhs))
       else if o_typecast o && convertible E (expr_type rhs) lhs_t then
@@ -348,11 +360,19 @@ Section Builder.
         match resolve_expr (fc_src c) (node_root rhs) with
         | None => ret None
         | Some rhs_node =>
+            if returns_error rhs_node then ret None else    (* nor be the argument of the converter *)
             doR a1 <- cast_node (fc_arg c) rhs_node;
             doR arg <- match a1 with
                        | Some a => ret (Some a)
                        | None => if negb (is_ptr (fc_arg c)) then ret None
-                                 else cast_node (deref_ptr (fc_arg c)) rhs_node
+                                 else
+                                   doR a2 <- cast_node (deref_ptr (fc_arg c)) rhs_node;
+                                   match a2 with
+                                   | Some a =>
+                                       (* written as &expr: expr must be addressable *)
+                                       if negb (is_ptr (expr_type a)) && negb (addressable a) then ret None else ret (Some a)
+                                   | None => ret None
+                                   end
                        end;
             match arg with
             | None => ret None
@@ -521,7 +541,8 @@ Section Builder.
     match m with
     | None => ret None
     | Some m =>
-        let pkg := match lookup_name d (mp_pkg m) with Some n => n | None => [] end in
+        let pkg0 := match lookup_name d (mp_pkg m) with Some n => n | None => [] end in
+        let pkg := if str_eqb pkg0 [46] then [] else pkg0 in       (* a dot-imported function is called bare *)
         let fname := match pkg with [] => mp_name m | _ => pkg ++ [46] ++ mp_name m end in
         let err (msg : str) := errorf (at_pos' (mp_pos m) msg) in
         if negb (str_eqb pkg []) && negb (mp_exported m) then
